@@ -103,6 +103,10 @@ class C07Bounded(Bounded):
                 check(kind, setp(base, p, None, delete=True), fn, f"key {'/'.join(map(str, p))} deleted")
                 for w in (WRONG if tier != "quick" else WRONG[:-5:2] + ["not-a-uuid", "5x", "2023-02-30", "2021/6/31", 10 ** 400, float("inf"), float("nan")]):
                     check(kind, setp(base, p, w), fn, f"{'/'.join(map(str, p))} = {lab(w)}")
+        # modifier chains whose later modifier cannot take what the earlier one produces (incl. behind an expanding modifier)
+        for key in ("f|windash|i", "f|base64offset|hour", "f|windash|m", "f|base64offset|gt", "f|windash|base64offset|i", "f|contains|re", "f|re|contains", "f|cidr|contains", "f|wide|cidr", "f|exists|windash"):
+            for val in ("-a b", ["-a", "x"], 5):
+                check("rule", setp(RULE, ("detection", "sel"), {key: val}), SigmaRule.from_dict, f"detection/sel = {{{key!r}: {val!r}}}")
         for w in WRONG:
             for kind, fn in (("rule", SigmaRule.from_dict), ("correlation", SigmaCorrelationRule.from_dict), ("filter", SigmaFilter.from_dict)):
                 if isinstance(w, dict):
@@ -112,7 +116,9 @@ class C07Bounded(Bounded):
                      [{"action": "global", "level": "bogus"}, RULE], [setp(FILT, ("filter", "rules"), 5)],
                      # a filter that applies to a rule whose detection section is malformed (collecting mode keeps a placeholder detection)
                      [setp(RULE, ("detection", "sel"), {"f|nope": 1}), FILT], [FILT, setp(RULE, ("detection", "condition"), None, delete=True)], [setp(RULE, ("detection",), "x"), setp(FILT, ("filter", "rules"), "any")],
-                     [setp(RULE, ("detection",), None, delete=True), FILT, RULE]]
+                     [setp(RULE, ("detection",), None, delete=True), FILT, RULE],
+                     # log source attributes of unhashable types (empty containers pass the type checks) together with a filter
+                     [setp(RULE, ("logsource", "category"), []), FILT], [FILT, setp(RULE, ("logsource", "definition"), {})], [setp(RULE, ("logsource", "service"), []), setp(FILT, ("filter", "rules"), "any")]]
         for di, ds in enumerate(docs_sets):
             ev += 1
             nontriv += 1
